@@ -698,12 +698,7 @@ pub fn run(args: &Args) {
     if let Some(path) = &args.replay {
         let v = vcore::read_replay(path);
         let r = run_input(&report, &v["input"]);
-        report.case(Some(&v["input"].to_string()), &["replay"]);
-        report.case(Some("replay-marker"), &[]);
-        if let Err(f) = r {
-            report.violation("replay", &f, v["input"].clone());
-        }
-        report.finish();
+        crate::explore::finish_replay(&report, &v["input"], r);
     }
     report.run_regressions(|input| run_input(&report, input));
     // schedule replays intern values the sequential model has not seen
